@@ -5,6 +5,7 @@
   Proofs: Coraza/Proofs/Rx.lean.
 -/
 import Coraza.Proofs.Rx
+import Coraza.Proofs.Regex
 open Coraza Coraza.Rx
 
 /-- C11_minLen_sound: whatever the pattern matches is at least `minLen` bytes long — for every
@@ -111,3 +112,50 @@ example : (match prefilterOf (.cat false [.bot false, .star false (.any false), 
     | .some p => p.eval (bytesOf [120, 102, 111, 111, 98, 97, 114])
     | _ => true) = true := by decide
 example : rawSuffixes false (.cat false [.any false, .lit false [50, 50]]) = .nil := by decide
+
+/-! ## the exact-match fast path (rx.go:140-147), with the exact regex semantics of Proofs/Regex.lean -/
+
+open Coraza.Regex in
+/-- **C11_exact_fastpath**: for every literal and every value without a newline, the regex
+    `(?sm)^literal$` — what @rx compiles for a `^literal$` pattern — finds a match iff the value
+    *is* the literal. This is exactly the condition under which rx.Evaluate answers by string
+    comparison instead of running the regex (the `\n` guard is the hypothesis; with a newline in
+    the value `(?m)` lets `^`/`$` match inside, and the fast path is not taken). -/
+theorem C11_exact_fastpath (lit v : Bytes) (hnl : (10 : UInt8) ∉ v) :
+    search (exactRe lit) v = decide (v = lit) := by
+  rw [Bool.eq_iff_iff, search_iff]
+  simp only [decide_eq_true_eq]
+  constructor
+  · rintro ⟨pre, m, post, hv, hm⟩
+    obtain ⟨hml, hb, he⟩ := (exactRe_iff lit _ _ _).mp hm
+    subst hml
+    have hpre : pre = [] := by
+      rcases lst_cases none pre with ⟨h1, _⟩ | ⟨c, hc, hl⟩
+      · exact h1
+      · rw [hl] at hb
+        simp only [Asrt.holds, beq_iff_eq] at hb
+        subst hb
+        exact absurd (by rw [hv]; simp [hc]) hnl
+    have hpost : post = [] := by
+      cases post with
+      | nil => rfl
+      | cons c cs =>
+        simp only [hd, Asrt.holds, beq_iff_eq] at he
+        subst he
+        exact absurd (by rw [hv]; simp) hnl
+    subst hpre; subst hpost
+    simpa using hv
+  · intro hv
+    subst hv
+    refine ⟨[], v, [], by simp, (exactRe_iff v _ _ _).mpr ⟨rfl, ?_, ?_⟩⟩
+    · simp [Asrt.holds, lst]
+    · simp [Asrt.holds, hd]
+
+open Coraza.Regex in
+/-- the guard is needed: with a newline in the value `(?m)^OPTIONS$` matches inside it although the
+    value differs from the literal -/
+example : search (exactRe [0x4f, 0x4b]) [0x4f, 0x4b, 10, 0x78] = true ∧ ([0x4f, 0x4b, 10, 0x78] : Bytes) ≠ [0x4f, 0x4b] := by decide
+
+open Coraza.Regex in
+/-- the shape is what the parser builds for the pattern text (modulo the empty piece of the flag group) -/
+example : parse {} ([0x28, 0x3f, 0x73, 0x6d, 0x29, 0x5e, 0x4f, 0x4b, 0x24]) = some (.cat .eps (exactRe [0x4f, 0x4b])) := by decide
